@@ -62,7 +62,9 @@ type XAConn struct {
 	xaActive           bool
 	rollBacked         bool
 	branchRegisterTime time.Time
-	isConnKept         bool
+	// phaseOneUndone: the branch the connection worked on has been rolled back on the database (or never got
+	// as far as XA START): only then is it reported to the coordinator as failed in phase one
+	phaseOneUndone bool
 
 	// openedForPhaseTwo: the connection was opened only to finish a branch this process does not hold
 	// (DBResource.ConnectionForXA): nobody else owns it
@@ -70,9 +72,41 @@ type XAConn struct {
 
 	// held: the branches of this connection that are in the resource's keeper, with the time of their prepare
 	// (zero until then). A connection may carry several: on a session whose last branch is PREPARED the next one
-	// may start. The two-phase timeout checker reads it from a goroutine of its own.
+	// may start (MySQL >= 8.0.29, a connection the application keeps). Phase two and the two-phase timeout checker
+	// read it from goroutines of their own.
 	heldMu sync.Mutex
 	held   map[string]time.Time
+	// working: a branch is between XA START and its prepare or roll back on this connection (under heldMu)
+	working bool
+	// closeAsked: database/sql has closed the connection while it held a branch; it is closed for real when the
+	// last branch is released (under heldMu)
+	closeAsked bool
+	// broken: a branch could not be ended on the session: the connection must not be used again (under heldMu)
+	broken bool
+}
+
+// IsValid keeps a connection that holds a branch for phase two out of database/sql's pool (driver.Validator: asked
+// when the connection is given back): the session is the one phase two has to run on, it must not be handed to the
+// next transaction in the meantime - on MySQL before 8.0.29 it refuses XA START until then, and on any version two
+// goroutines would be talking over one connection. database/sql closes a connection that is not valid; Close
+// keeps the session open until the branch is finished.
+func (c *XAConn) IsValid() bool {
+	c.heldMu.Lock()
+	defer c.heldMu.Unlock()
+	return len(c.held) == 0 && !c.broken
+}
+
+// isKept tells whether the connection holds a branch for phase two
+func (c *XAConn) isKept() bool {
+	c.heldMu.Lock()
+	defer c.heldMu.Unlock()
+	return len(c.held) > 0
+}
+
+func (c *XAConn) setWorking(working bool) {
+	c.heldMu.Lock()
+	c.working = working
+	c.heldMu.Unlock()
 }
 
 func (c *XAConn) PrepareContext(ctx context.Context, query string) (driver.Stmt, error) {
@@ -199,6 +233,7 @@ func (c *XAConn) BeginTx(ctx context.Context, opts driver.TxOptions) (result dri
 		}
 
 		c.branchRegisterTime = time.Now()
+		c.phaseOneUndone = false
 		if err := baseTx.register(c.txCtx); err != nil {
 			c.cleanXABranchContext()
 			return nil, fmt.Errorf("failed to register xa branch %s, err:%w", c.txCtx.XID, err)
@@ -208,11 +243,15 @@ func (c *XAConn) BeginTx(ctx context.Context, opts driver.TxOptions) (result dri
 		c.keepIfNecessary()
 
 		if err = c.start(ctx); err != nil {
+			// the branch never came to be: nobody will ask for its phase two
+			c.releaseIfNecessary()
 			c.cleanXABranchContext()
+			c.phaseOneUndone = true
 			c.reportPhaseOneFailed()
 			return nil, fmt.Errorf("failed to start xa branch xid:%s err:%w", c.txCtx.XID, err)
 		}
 		c.xaActive = true
+		c.setWorking(true)
 	}
 
 	return &XATx{tx: tx.(*Tx), conn: c, ctx: ctx}, nil
@@ -333,6 +372,11 @@ func (c *XAConn) reportPhaseOneFailed() {
 	if !ok || baseTx == nil || baseTx.tranCtx == nil || !baseTx.tranCtx.IsBranchRegistered() {
 		return
 	}
+	if !c.phaseOneUndone {
+		// the roll back did not get through: the branch may be ACTIVE, IDLE or even PREPARED on the database. The
+		// coordinator must go on asking for it (its phase two rolls it back), not forget it
+		return
+	}
 	if err := baseTx.report(false); err != nil {
 		log.Errorf("failed to report the phase-one failure of xa branch %d of %s, err:%v", baseTx.tranCtx.BranchID, baseTx.tranCtx.XID, err)
 	}
@@ -347,7 +391,6 @@ func (c *XAConn) keepIfNecessary() {
 			}
 			c.held[c.xaBranchXid.String()] = time.Time{}
 			c.heldMu.Unlock()
-			c.isConnKept = true
 		}
 	}
 }
@@ -368,11 +411,19 @@ func (c *XAConn) release(xaBranchXid string) {
 	c.heldMu.Lock()
 	_, mine := c.held[xaBranchXid]
 	delete(c.held, xaBranchXid)
-	left := len(c.held)
+	closeNow := mine && len(c.held) == 0 && c.closeAsked
+	if closeNow {
+		c.closeAsked = false
+	}
 	c.heldMu.Unlock()
 	if mine {
 		c.res.Release(xaBranchXid)
-		c.isConnKept = left > 0
+	}
+	if closeNow {
+		// database/sql closed the connection long ago, the session was only kept for this branch
+		if err := c.Conn.Close(); err != nil {
+			log.Errorf("close the connection kept for %s, err:%v", xaBranchXid, err)
+		}
 	}
 }
 
@@ -381,11 +432,11 @@ func (c *XAConn) releaseAll() {
 	c.heldMu.Lock()
 	held := c.held
 	c.held = nil
+	c.closeAsked = false
 	c.heldMu.Unlock()
 	for xaBranchXid := range held {
 		c.res.Release(xaBranchXid)
 	}
-	c.isConnKept = false
 }
 
 // markPrepared starts the two-phase hold time of a kept branch
@@ -398,10 +449,14 @@ func (c *XAConn) markPrepared(xaBranchXid string) {
 }
 
 // heldLongerThan tells whether a PREPARED branch of the connection has been waiting for phase two for longer
-// than hold. A branch that is not prepared yet is the application's business, however long it takes.
+// than hold. A branch that is not prepared yet is the application's business, however long it takes - and so is
+// the connection while the application works on one: it is not taken away under it for the sake of an older branch.
 func (c *XAConn) heldLongerThan(hold time.Duration) bool {
 	c.heldMu.Lock()
 	defer c.heldMu.Unlock()
+	if c.working {
+		return false
+	}
 	for _, preparedAt := range c.held {
 		if !preparedAt.IsZero() && time.Since(preparedAt) > hold {
 			return true
@@ -411,11 +466,14 @@ func (c *XAConn) heldLongerThan(hold time.Duration) bool {
 }
 
 func (c *XAConn) start(ctx context.Context) error {
-	xaResource, err := xa.CreateXAResource(c.Conn.targetConn, c.dbType)
-	if err != nil {
-		return fmt.Errorf("create xa xid:%s resoruce err:%w", c.txCtx.XID, err)
+	if c.xaResource == nil {
+		// (one for the life of the connection: phase two of an earlier branch may be using it)
+		xaResource, err := xa.CreateXAResource(c.Conn.targetConn, c.dbType)
+		if err != nil {
+			return fmt.Errorf("create xa xid:%s resoruce err:%w", c.txCtx.XID, err)
+		}
+		c.xaResource = xaResource
 	}
-	c.xaResource = xaResource
 
 	if err := c.xaResource.Start(ctx, c.xaBranchXid.String(), xa.TMNoFlags); err != nil {
 		return fmt.Errorf("xa xid %s resource connection start err:%w", c.txCtx.XID, err)
@@ -426,7 +484,7 @@ func (c *XAConn) start(ctx context.Context) error {
 		c.XaRollback(ctx, c.xaBranchXid)
 		return err
 	}
-	return err
+	return nil
 }
 
 func (c *XAConn) end(ctx context.Context, flags int) error {
@@ -454,7 +512,8 @@ func (c *XAConn) cleanXABranchContext() {
 	h, _ := time.ParseDuration("-1000h")
 	c.branchRegisterTime = time.Now().Add(h)
 	c.xaActive = false
-	if !c.isConnKept {
+	c.setWorking(false)
+	if !c.isKept() {
 		c.xaBranchXid = nil
 	}
 }
@@ -472,12 +531,18 @@ func (c *XAConn) Rollback(ctx context.Context) error {
 	defer cancel()
 	if !c.rollBacked {
 		if c.xaResource.End(ctx, c.xaBranchXid.String(), xa.TMFail) != nil {
-			return c.rollbackErrorHandle()
+			// the branch is still ACTIVE on the session and cannot be ended: the session is of no use any more
+			// (closing it rolls the branch back); the coordinator is not told that the branch is done with
+			err := c.rollbackErrorHandle()
+			c.giveUpSession()
+			return err
 		}
 		if c.XaRollback(ctx, c.xaBranchXid) != nil {
-			c.cleanXABranchContext()
-			return c.rollbackErrorHandle()
+			err := c.rollbackErrorHandle()
+			c.giveUpSession()
+			return err
 		}
+		c.phaseOneUndone = true
 		if err := c.tx.Rollback(); err != nil {
 			c.cleanXABranchContext()
 			return fmt.Errorf("failed to report XA branch commit-failure on xid:%s err:%w", c.txCtx.XID, err)
@@ -485,6 +550,16 @@ func (c *XAConn) Rollback(ctx context.Context) error {
 	}
 	c.cleanXABranchContext()
 	return nil
+}
+
+// giveUpSession is the end of a branch that could be neither ended nor rolled back: the branch is taken out of the
+// keeper (phase two will find another connection), the connection is marked so that database/sql discards it
+func (c *XAConn) giveUpSession() {
+	c.releaseIfNecessary()
+	c.heldMu.Lock()
+	c.broken = true
+	c.heldMu.Unlock()
+	c.cleanXABranchContext()
 }
 
 func (c *XAConn) rollbackErrorHandle() error {
@@ -533,7 +608,10 @@ func (c *XAConn) commitErrorHandle(ctx context.Context, cause error, ended bool)
 	err := fmt.Errorf("xa branch of xid:%s failed in phase one and was rolled back, err:%w", c.txCtx.XID, cause)
 	if rollbackErr := c.XaRollback(ctx, c.xaBranchXid); rollbackErr != nil {
 		err = fmt.Errorf("failed to report XA branch commit-failure xid:%s, err:%w", c.txCtx.XID, rollbackErr)
+		c.giveUpSession()
+		return err
 	}
+	c.phaseOneUndone = true
 	c.cleanXABranchContext()
 	return err
 }
@@ -553,8 +631,17 @@ func (c *XAConn) checkTimeout(ctx context.Context, now time.Time) error {
 
 func (c *XAConn) Close() error {
 	c.rollBacked = false
-	if c.isConnKept && c.ShouldBeHeld() {
-		return nil
+	if c.ShouldBeHeld() {
+		c.heldMu.Lock()
+		kept := len(c.held) > 0
+		if kept {
+			// the session stays open for phase two of the branches it holds; the last release closes it
+			c.closeAsked = true
+		}
+		c.heldMu.Unlock()
+		if kept {
+			return nil
+		}
 	}
 	c.cleanXABranchContext()
 	if err := c.Conn.Close(); err != nil {
